@@ -109,6 +109,33 @@ CLAIMS = {
         note="Trusted: smart_cond semantics. Not decided: the expectation "
              "itself over many draws.",
         ref="DESIGN.md section 3 C08"),
+    "C09": dict(
+        technique="partial evaluation of constructor, get_config and "
+                  "from_config on the AST + forward normal-form equality of "
+                  "original and rebuilt quantizer; registry table comparison",
+        text="For all 14 registered classes and every constructor option "
+             "(one at a time, full lattice in the thorough tier) the "
+             "quantizer rebuilt from its own config must compute the same "
+             "forward function and scale for all inputs; keys must be "
+             "accepted by the constructor; the registry resolves each name "
+             "to the class of that name.",
+        note="Trusted: Keras serialize/deserialize call cls.from_config. "
+             "Not decided: equality on concrete tensors (follows from NF "
+             "equality in real arithmetic).",
+        ref="DESIGN.md section 3 C09"),
+    "C10": dict(
+        technique="AST sink scan; structural rules on GetParams/GetArg; "
+                  "partial evaluation of __str__ composed with the "
+                  "interpreted safe_eval parser (pyparsing subset modelled) "
+                  "+ forward normal-form equality",
+        text="No code-execution sink on the text path; positional-after-"
+             "keyword rejected; literal dispatch table; and for every class "
+             "and option the printed text, re-parsed by the repository's own "
+             "parser, must build a quantizer computing the same function.",
+        note="Trusted: the pyparsing subset model (qkstat/gram.py) and "
+             "CPython str() of scalars/lists. Not decided: the parse "
+             "direction over arbitrary generated argument lists.",
+        ref="DESIGN.md section 3 C10"),
 }
 
 PENDING = "rules for this property are not built yet in this revision of /verif"
